@@ -322,6 +322,19 @@ type MpNamed struct {
 	Sum    Totals
 }
 
+// EmbNamed embeds a custom-named struct (the promoted HessianCodecName is NOT its own name)
+type EmbNamed struct {
+	NamedS
+	X int32
+}
+
+type EmbNamedHolder struct {
+	N NamedS
+	O EmbNamed
+	P *EmbNamed
+	L []EmbNamed
+}
+
 // named scalar types (kinds the statement lists; the types are not the built-in ones)
 type Celsius float64
 type Ratio float32
@@ -471,6 +484,7 @@ var Types = []Entry{
 	e(NamedS{}, "custom"), e(NamedHolder{}, "custom"), e(NamedListHolder{}, "custom", "custom-slice"), e(NamedMapHolder{}, "custom", "custom-map"), e(MapThenLists{}, "custom", "custom-map", "slice"), e(PadThen{}, "scalars"),
 	e(Uni{}, "scalars", "unicode-fields"), e(NamedNode{}, "recursive", "custom"), e(MpStructKey{}, "map", "struct-key"), e(MpStrAny{}, "map", "iface"),
 	e(SlMapSl{}, "slice", "slice-of-map"), e(SlMapPtr{}, "slice", "slice-of-map", "recursive"), e(MpMpPtr{}, "map", "recursive"), e(MpNamed{}, "map", "custom", "custom-map"),
+	e(EmbNamed{}, "embedded", "custom"), e(EmbNamedHolder{}, "embedded", "custom", "slice"),
 	e(HoldR{}, "slice", "map", "self-referential-container"), e(NamedScalars{}, "scalars", "named-scalars", "slice", "map"),
 	e(DigestHolder{}, "slice", "named-bytes"), e(StampedHolder{}, "embedded", "embedded-time"), e(PtrMap{}, "map", "ptr-map"),
 	e(SlBool{}, "slice"), e(SlInt{}, "slice"), e(SlInt8{}, "slice"), e(SlInt16{}, "slice"), e(SlInt32{}, "slice"), e(SlInt64{}, "slice"),
